@@ -131,6 +131,21 @@ def _walk(ctx, args):
                             if int(round(2 * prob)) != mpr:
                                 return bad('np:postselect probability', prob, mpr / 2.0, 'corr')
                             mt = mt2
+                elif op == 'query':
+                    # read-only use of the state in between: whatever a query does internally, the state goes on being the same valid state
+                    rr = __import__('random').Random(st[1])
+                    region = [q for q in range(N) if rr.random() < 0.5] or [0]
+                    s.entropy(region)
+                    s.entropy(np.array([q in region for q in range(N)]))
+                    s.expect(NP.PL(gen.rplist(rr, N, 3, herm=True)))
+                    s.sample(2)
+                    s.to_map()
+                    repr(s)
+                    if N - s.r <= 4:
+                        s.density_matrix
+                    before_q = S.st_list(s)
+                    if before_q != cur:
+                        return bad('np:a query changed the tableau of the state', before_q, cur)
                 elif op == 'copy':
                     s = s.copy()
                 elif op == 'roundtrip':
@@ -179,7 +194,9 @@ CHECKS = {'circuit_state': c_circuit_state, 'ctor_fresh': __import__('props.C17'
 
 
 def rstep(ctx, rng, N, pure_hint):
-    k = rng.choice(['rotate', 'rotate', 'transform', 'gate_f', 'gate_b', 'measure', 'measure', 'mlayer', 'postselect', 'copy', 'roundtrip'])
+    k = rng.choice(['rotate', 'rotate', 'transform', 'gate_f', 'gate_b', 'measure', 'measure', 'mlayer', 'postselect', 'copy', 'roundtrip', 'query', 'query'])
+    if k == 'query':
+        return ['query', rng.randrange(10 ** 6)]
     if k == 'rotate':
         n = rng.randint(1, N)
         return ['rotate', gen.rpauli(rng, n, herm=True), None if n == N else gen.rmask(rng, N, n)[0]]
